@@ -23,9 +23,6 @@ def u32le (b : Bytes) : Nat :=
 
 def u64le (b : Bytes) : Nat := u32le b + 4294967296 * u32le (b.drop 4)
 
-/-- `read_u32(s)`: `s[..4]` panics when `s` is shorter than 4 bytes -/
-def readU32 (b : Bytes) : Res Nat := if b.length < 4 then .panic "read_u32" else .ok (u32le b)
-
 /-! ### record framing -/
 
 /-- `RecordIter::read_type`: one byte, or two when the high bit of the first is set (7 bits each, low first;
@@ -53,15 +50,16 @@ def readLen : Bytes → Res (Nat × Bytes)
   | [] => .err "io"
   | b :: r => readLenGo 3 1 (b.toNat % 128) b r
 
-/-- `RecordIter::fill_buffer(buf)`: `(len, buf', rest)`. The buffer is replaced by a fresh one of `len` bytes
-    when it is shorter than `len`; otherwise only its first `len` bytes are overwritten (the tail keeps the
-    bytes of earlier records). -/
-def fillBuffer (buf : Bytes) (bs : Bytes) : Res (Nat × Bytes × Bytes) :=
+/-- `RecordIter::fill_buffer(buf)`: `(len, buf', rest)`. The buffer is cleared and filled with exactly the `len`
+    payload bytes (`take(len).read_to_end`, so that the allocation follows the bytes present; before
+    `fix: xlsb fill_buffer …` the buffer was resized to the declared length first and kept the tail of earlier,
+    longer records). The old buffer is an argument only because it is one in the code. -/
+def fillBuffer (_buf : Bytes) (bs : Bytes) : Res (Nat × Bytes × Bytes) :=
   match readLen bs with
   | .ok (len, r) =>
-    -- `read_exact`: fewer than `len` bytes left (tested on the prefix, so that reading a record costs its own size)
+    -- fewer than `len` bytes left (tested on the prefix, so that reading a record costs its own size)
     if (r.take len).length < len then .err "io"
-    else .ok (len, (if buf.length < len then r.take len else r.take len ++ buf.drop len), r.drop len)
+    else .ok (len, r.take len, r.drop len)
   | .err e => .err e
   | .panic s => .panic s
   | .outOfFuel => .outOfFuel
@@ -155,7 +153,7 @@ def units : Bytes → List Nat
 
 /-- `wide_str(buf, &mut str_len)`: `(code units, str_len)` -/
 def wideStr (buf : Bytes) : Res (List Nat × Nat) :=
-  if buf.length < 4 then .panic "read_u32"
+  if buf.length < 4 then .err "WideStr"
   else if buf.length < 4 + u32le buf * 2 then .err "WideStr"
   else .ok (units ((buf.drop 4).take (u32le buf * 2)), 4 + u32le buf * 2)
 
@@ -165,7 +163,7 @@ def sstItems : Nat → Nat → Bytes → Bytes → List (List Nat) → Res (List
   | n+1, fuel, buf, bs, acc =>
     match nextSkipBlocks 0x0013 [(0x0023, some 0x0024)] fuel buf bs with
     | .ok (_, buf', rest) =>
-      if buf'.length < 1 then .panic "buf[1..]"
+      if buf'.length < 1 then .err "Unrecognized"
       else match wideStr (buf'.drop 1) with
         | .ok (s, _) => sstItems n fuel buf' rest (s :: acc)
         | .err e => .err e
@@ -179,7 +177,7 @@ def sstItems : Nat → Nat → Bytes → Bytes → List (List Nat) → Res (List
 def readSharedStrings (bs : Bytes) : Res (List (List Nat)) :=
   match nextSkipBlocks 0x009F [] (bs.length + 1) [] bs with
   | .ok (_, buf, rest) =>
-    if buf.length < 8 then .panic "buf[4..8]"
+    if buf.length < 8 then .err "Unrecognized"
     else sstItems (u32le (buf.drop 4)) (bs.length + 1) buf rest []
   | .err e => .err e
   | .panic s => .panic s
@@ -273,44 +271,45 @@ inductive Step where
   | fail (r : Res Unit)
   deriving Repr
 
-/-- the `match self.typ { … }` of `next_cell` on one record `(typ, buf)`, followed by
-    `let col = read_u32(&self.buf)` for a value record -/
+/-- The `match self.typ { … }` of `next_cell` on one record `(typ, buf)`, followed by
+    `let col = read_u32(&self.buf)` for a value record. The `min_len` test in front of the `match` (a record
+    shorter than the fixed part of its layout is `Err(Unrecognized)`; these were slice panics before
+    `fix: xlsb cell records shorter than their layout …`) is written inside the arm it belongs to. -/
 def interpret (ctx : Ctx) (typ : Nat) (buf : Bytes) : Step :=
   if typ = 0x0002 then
-    -- BrtCellRk: `self.buf[8]`, then `self.buf[8..12]`
-    if buf.length < 9 then .fail (.panic "buf[8]")
-    else if buf.length < 12 then .fail (.panic "buf[8..12]")
+    -- BrtCellRk: 12 bytes
+    if buf.length < 12 then .fail (.err "Unrecognized")
     else .value (u32le buf) (rkVal ctx buf)
   else if typ = 0x0003 ∨ typ = 0x000B then
-    -- BrtCellError | BrtFmlaError
-    if buf.length < 9 then .fail (.panic "buf[8]")
+    -- BrtCellError | BrtFmlaError: 9 bytes
+    if buf.length < 9 then .fail (.err "Unrecognized")
     else if isErrCode (buf.getD 8 0).toNat then .value (u32le buf) (.error (buf.getD 8 0).toNat)
     else .fail (.err "CellError")
   else if typ = 0x0004 ∨ typ = 0x000A then
-    -- BrtCellBool | BrtFmlaBool
-    if buf.length < 9 then .fail (.panic "buf[8]")
+    -- BrtCellBool | BrtFmlaBool: 9 bytes
+    if buf.length < 9 then .fail (.err "Unrecognized")
     else .value (u32le buf) (.bool ((buf.getD 8 0).toNat ≠ 0))
   else if typ = 0x0005 ∨ typ = 0x0009 then
-    -- BrtCellReal | BrtFmlaNum
-    if buf.length < 16 then .fail (.panic "buf[8..16]")
+    -- BrtCellReal | BrtFmlaNum: 16 bytes
+    if buf.length < 16 then .fail (.err "Unrecognized")
     else .value (u32le buf) (formatF64 ctx buf (u64le (buf.drop 8)))
   else if typ = 0x0006 ∨ typ = 0x0008 then
-    -- BrtCellSt | BrtFmlaString
-    if buf.length < 8 then .fail (.panic "buf[8..]")
+    -- BrtCellSt | BrtFmlaString: 8 bytes, then `wide_str`
+    if buf.length < 8 then .fail (.err "Unrecognized")
     else match wideStr (buf.drop 8) with
       | .ok (s, _) => .value (u32le buf) (.str s)
       | .err e => .fail (.err e)
       | .panic s => .fail (.panic s)
       | .outOfFuel => .fail .outOfFuel
   else if typ = 0x0007 then
-    -- BrtCellIsst (after `fix: xlsb shared string index out of range panicked`)
-    if buf.length < 12 then .fail (.panic "buf[8..12]")
+    -- BrtCellIsst: 12 bytes (index checked since `fix: xlsb shared string index out of range panicked`)
+    if buf.length < 12 then .fail (.err "Unrecognized")
     else match ctx.strings[u32le (buf.drop 8)]? with
       | some s => .value (u32le buf) (.str s)
       | none => .fail (.err "Unrecognized")
   else if typ = 0x0000 then
-    -- BrtRowHdr
-    if buf.length < 4 then .fail (.panic "read_u32") else .row (u32le buf)
+    -- BrtRowHdr: 4 bytes
+    if buf.length < 4 then .fail (.err "Unrecognized") else .row (u32le buf)
   else if typ = 0x0092 then .stop
   else .skip
 
@@ -352,7 +351,7 @@ def dimLen (d : Nat × Nat × Nat × Nat) : Res Nat :=
 def newReader (bs : Bytes) : Res ((Nat × Nat × Nat × Nat) × Bytes) :=
   match nextSkipBlocks 0x0094 [(0x0081, none), (0x0093, none)] (bs.length + 1) [] bs with
   | .ok (_, buf, rest) =>
-    if buf.length < 16 then .panic "buf[..16]"
+    if buf.length < 16 then .err "Unrecognized"
     else
       match nextSkipBlocks 0x0091 [(0x0085, some 0x0086), (0x0025, some 0x0026), (0x01E5, none), (0x0186, some 0x0187)]
           (bs.length + 1) buf rest with
@@ -364,21 +363,29 @@ def newReader (bs : Bytes) : Res ((Nat × Nat × Nat × Nat) × Bytes) :=
   | .panic s => .panic s
   | .outOfFuel => .outOfFuel
 
-/-- `worksheet_range_ref` (default header row): reader construction, `dimensions().len()`, the cell loop
-    (cells with an empty value are dropped — none is produced by `next_cell`), `Range::from_sparse` -/
-def decodeSheet (ctx : Ctx) (bs : Bytes) : Res (Range.Rng Val) :=
+/-- The reading part of `worksheet_range_ref` (default header row): reader construction, `dimensions().len()`,
+    the cell loop; cells with an empty value are dropped (`next_cell` produces none). -/
+def sheetCells (ctx : Ctx) (bs : Bytes) : Res (List (Nat × Nat × Val)) :=
   match newReader bs with
   | .ok (dims, rest) =>
     match dimLen dims with
     | .ok _ =>
       match readCells ctx (bs.length + 1) rest 0 with
-      | .ok cells => Range.fromSparse (cells.filter (fun c => c.2.2 ≠ Val.empty))
+      | .ok cells => .ok (cells.filter (fun c => c.2.2 ≠ Val.empty))
       | .err e => .err e
       | .panic s => .panic s
       | .outOfFuel => .outOfFuel
     | .err e => .err e
     | .panic s => .panic s
     | .outOfFuel => .outOfFuel
+  | .err e => .err e
+  | .panic s => .panic s
+  | .outOfFuel => .outOfFuel
+
+/-- `worksheet_range_ref`: the cells read, then `Range::from_sparse` -/
+def decodeSheet (ctx : Ctx) (bs : Bytes) : Res (Range.Rng Val) :=
+  match sheetCells ctx bs with
+  | .ok cells => Range.fromSparse cells
   | .err e => .err e
   | .panic s => .panic s
   | .outOfFuel => .outOfFuel
